@@ -22,6 +22,7 @@ def check(repo, tier="quick"):
         "reader/writer they call; effect analysis of who writes the context dictionary; must-flow pairing inside the framework; "
         "typestate (sub-context depth, bounded-block alternation, list declaration) over every function of the VC-2 description program."
     )
+    res.rule("C21.h", "bug patterns with zero expected instances in this property's modules: swapped same-named arguments, lower-bound guard followed by a decrement of the guarded value, presence of a dictionary entry decided by truthiness")
     res.rule("C21.a", "the primitive set declared abstract in SerDes = overridden in Deserialiser = Serialiser = MonitoredMixin; each pair calls io.read_X / io.write_X for the same X with the size argument passed through")
     res.rule("C21.b", "only the four context-writer methods store into the context; deserialiser primitives reach it only through _set_context_value (which refuses reuse), serialiser primitives only through _get_context_value")
     res.rule("C21.c", "framework pairing: subcontext_leave verifies completeness before popping; __exit__ verifies when no exception is in flight; context managers call begin/enter before and end/leave after the yield")
@@ -40,6 +41,10 @@ def check(repo, tier="quick"):
     rule_c(repo, res, m, meth, where)
     rule_d(repo, res)
     rule_e(repo, res, m, meth, where)
+    from .. import lints as _lints
+
+    _lints.rule(repo, res, "C21.h", ['bitstream.serdes', 'fixeddict', 'bitstream.vc2_fixeddicts'])
+    res.floor("C21.h", 4)
     res.floor("C21.a", 20)
     res.floor("C21.b", 15)
     res.floor("C21.c", 5)
